@@ -7,6 +7,8 @@ gate networks.
 """
 
 import numpy as np
+import math
+
 import torch
 from torch.distributions.gumbel import Gumbel
 
@@ -315,8 +317,13 @@ def gumbel_sigmoid(logits, tau=1.0, hard=False, threshold=0.5):
     y_soft = torch.sigmoid((logits + logistic_noise) / tau)
 
     if hard:
-        # Straight-through estimator
-        y_hard = (y_soft > threshold).float()
+        # Straight-through estimator. y_soft > threshold  <=>  logits + noise > tau * logit(threshold); comparing there is
+        # exact, whereas the rounded sigmoid is exactly 0.5 for small positive (logits + noise) / tau (large temperatures)
+        if 0.0 < threshold < 1.0:
+            cut = tau * (math.log(threshold) - math.log1p(-threshold))
+            y_hard = ((logits + logistic_noise) > cut).float()
+        else:
+            y_hard = (y_soft > threshold).float()
         return (y_hard - y_soft).detach() + y_soft
 
     return y_soft
